@@ -92,12 +92,14 @@ func checkStream(name string, seed map[string]string, received []ev, final map[s
 
 // ---- harness A/C: Collection, one writer, one subscriber
 // ops: "+a" add, "~a" update, "-a" delete (always legal for the state they are applied in)
+// (Every Pull of these harnesses gives the backpressure option twice, the opposite setting first: options are applied in
+// order and the later one is the one that counts - a wrapper's default overridden by its caller.)
 func collBody(name string, ops []string, backpressure, lateConsumer bool) func() {
 	return func() {
 		col := resource.NewCollection(resource.WithInitialRecord("a", msg(0)))
 		ctx, cancel := context.WithCancel(context.Background())
 		defer cancel()
-		ch := col.Pull(ctx, resource.WithBackpressure(backpressure), resource.WithUpdatesOnly(true))
+		ch := col.Pull(ctx, resource.WithBackpressure(!backpressure), resource.WithBackpressure(backpressure), resource.WithUpdatesOnly(true))
 		var received []ev
 		consume := func() {
 			for c := range ch {
@@ -166,7 +168,7 @@ func valueBody(name string, n int, backpressure, lateConsumer bool) func() {
 		val := resource.NewValue(resource.WithInitialValue(msg(0)))
 		ctx, cancel := context.WithCancel(context.Background())
 		defer cancel()
-		ch := val.Pull(ctx, resource.WithBackpressure(backpressure), resource.WithUpdatesOnly(true))
+		ch := val.Pull(ctx, resource.WithBackpressure(!backpressure), resource.WithBackpressure(backpressure), resource.WithUpdatesOnly(true))
 		var received []string
 		consume := func() {
 			for c := range ch {
